@@ -6,6 +6,7 @@ import (
 	"fmt"
 	"reflect"
 	"testing"
+	"time"
 
 	"github.com/ClickHouse/ch-go"
 	"github.com/ClickHouse/ch-go/proto"
@@ -17,15 +18,18 @@ import (
 
 // respScenario is a generated server response with the callbacks that observe it.
 type respScenario struct {
-	cf       *Conf
-	cols     []ColSpec
-	packets  []*SPacket
-	auto     bool            // Results.Auto() instead of typed targets
-	noTarget bool            // Query.Result is nil: only zero-row blocks may arrive
-	have     map[string]bool // which callbacks are present
-	rec      *Recorder
-	res      proto.Results
-	query    ch.Query
+	cf          *Conf
+	cols        []ColSpec
+	packets     []*SPacket
+	auto        bool          // Results.Auto() instead of typed targets
+	farDeadline time.Duration // > 0: the query context carries a deadline far beyond the whole exchange
+	failName    string        // callback that returns an error at its failN-th invocation
+	failN       int
+	noTarget    bool            // Query.Result is nil: only zero-row blocks may arrive
+	have        map[string]bool // which callbacks are present
+	rec         *Recorder
+	res         proto.Results
+	query       ch.Query
 }
 
 // drawResponse draws a response script from the grammar of C03.
@@ -94,6 +98,27 @@ func drawResponse(c *choice.Stream, cf *Conf, maxPackets int) *respScenario {
 		}
 		rs.packets = append(rs.packets, &SPacket{Kind: "eos"})
 	}
+	// the server may be quiet for a while before a packet (a long-running stage
+	// of the query): shorter or longer than the client's read timeout
+	if len(rs.packets) > 0 && c.Bool("resp.pause", 1, 4) {
+		rt := cf.EffReadTimeout()
+		rs.packets[c.Draw("resp.pause.at", len(rs.packets))].Delay = []time.Duration{rt / 2, rt + rt/2, 4 * rt}[c.Draw("resp.pause.len", 3)]
+	}
+	rs.farDeadline = time.Duration(c.Pick("ctx.deadline.min", 0, 0, 30, 600)) * time.Minute
+	// one of the installed callbacks may fail at its n-th invocation
+	if c.Bool("cb.fail", 1, 4) {
+		var present []string
+		for _, cb := range []string{"result", "progress", "profile", "events", "event", "logs", "log"} {
+			if rs.have[cb] {
+				present = append(present, cb)
+			}
+		}
+		if len(present) > 0 {
+			rs.failName = present[c.Draw("cb.fail.name", len(present))]
+			rs.failN = 1 + c.Draw("cb.fail.n", 3)
+			rs.rec.FailAt = map[string]int{rs.failName: rs.failN}
+		}
+	}
 	// the query
 	rs.query.Body = "SELECT"
 	if rs.noTarget {
@@ -134,6 +159,18 @@ func drawResponse(c *choice.Stream, cf *Conf, maxPackets int) *respScenario {
 func (rs *respScenario) expected() (events []string, wantErr string, chain []refproto.Exception) {
 	rev := rs.cf.Negotiated()
 	first := true
+	calls := map[string]int{}
+	// emit records one callback invocation; it reports true when that is the
+	// invocation which fails: the call ends there with the callback's error
+	emit := func(name, ev string) bool {
+		events = append(events, ev)
+		calls[name]++
+		if name == rs.failName && calls[name] == rs.failN {
+			events = append(events, "fail:"+name)
+			return true
+		}
+		return false
+	}
 	for _, p := range rs.packets {
 		switch p.Kind {
 		case "data", "totals":
@@ -141,7 +178,9 @@ func (rs *respScenario) expected() (events []string, wantErr string, chain []ref
 				continue
 			}
 			if rs.have["result"] {
-				events = append(events, blockEvent("result", p.Block.Cols, p.Block.Rows))
+				if emit("result", blockEvent("result", p.Block.Cols, p.Block.Rows)) {
+					return events, "callback", nil
+				}
 			} else {
 				if !first {
 					return events, "no-onresult", nil
@@ -151,12 +190,12 @@ func (rs *respScenario) expected() (events []string, wantErr string, chain []ref
 				}
 			}
 		case "progress":
-			if rs.have["progress"] {
-				events = append(events, progEvent(p.Prog, rev))
+			if rs.have["progress"] && emit("progress", progEvent(p.Prog, rev)) {
+				return events, "callback", nil
 			}
 		case "profile":
-			if rs.have["profile"] {
-				events = append(events, fmt.Sprintf("profile %+v", p.Prof))
+			if rs.have["profile"] && emit("profile", fmt.Sprintf("profile %+v", p.Prof)) {
+				return events, "callback", nil
 			}
 		case "events":
 			if rs.have["events"] {
@@ -164,11 +203,15 @@ func (rs *respScenario) expected() (events []string, wantErr string, chain []ref
 				for _, e := range p.Events {
 					s += " " + evStr(e)
 				}
-				events = append(events, s)
+				if emit("events", s) {
+					return events, "callback", nil
+				}
 			}
 			if rs.have["event"] {
 				for _, e := range p.Events {
-					events = append(events, "event "+evStr(e))
+					if emit("event", "event "+evStr(e)) {
+						return events, "callback", nil
+					}
 				}
 			}
 		case "log":
@@ -178,11 +221,15 @@ func (rs *respScenario) expected() (events []string, wantErr string, chain []ref
 				for _, l := range p.Logs {
 					s += fmt.Sprintf(" %+v", strip(l))
 				}
-				events = append(events, s)
+				if emit("logs", s) {
+					return events, "callback", nil
+				}
 			}
 			if rs.have["log"] {
 				for _, l := range p.Logs {
-					events = append(events, fmt.Sprintf("log %+v", strip(l)))
+					if emit("log", fmt.Sprintf("log %+v", strip(l))) {
+						return events, "callback", nil
+					}
 				}
 			}
 		case "exception":
@@ -223,6 +270,12 @@ func (rs *respScenario) checkOutcome(r *Result, err error, tag string) {
 	case "":
 		if err != nil {
 			r.Violate("return-value", "ret:nil-expected:"+tag, "stream ended with EndOfStream and no callback failed, but Do returned %v", err)
+		}
+	case "callback":
+		if err == nil {
+			r.Violate("return-value", "ret:callback-error-lost:"+tag, "callback %s failed at its invocation %d, but Do returned nil", rs.failName, rs.failN)
+		} else if !errors.Is(err, ErrInjected) {
+			r.Violate("return-value", "ret:callback-error-replaced:"+tag, "callback %s failed at its invocation %d, but Do returned %v, from which the callback's error cannot be recovered", rs.failName, rs.failN, err)
 		}
 	case "no-onresult":
 		if err == nil {
@@ -272,7 +325,7 @@ func selectScript(cf *Conf, packets []*SPacket) []simnet.Step {
 	nop := func(*refproto.ClientPacket) []byte { return nil }
 	s = append(s, simnet.Step{Label: "query", OnPacket: nop}, simnet.Step{Label: "ext-end", OnPacket: nop})
 	for _, p := range packets {
-		s = append(s, simnet.Step{Label: p.Kind, Send: p.Encode(cf)})
+		s = append(s, simnet.Step{Label: p.Kind, Send: p.Encode(cf), Delay: p.Delay})
 	}
 	return s
 }
@@ -299,7 +352,7 @@ func runC03(t *testing.T, c *choice.Stream, r *Result, opt RunOpt) {
 			rs := drawResponse(c, cf, maxP)
 			scs = append(scs, rs)
 			script = append(script, selectScript(cf, rs.packets)...)
-			if _, we, _ := rs.expected(); we == "no-onresult" {
+			if _, we, _ := rs.expected(); we == "no-onresult" || we == "callback" {
 				// the client closes the connection on this error; nothing follows
 				break
 			}
@@ -308,7 +361,7 @@ func runC03(t *testing.T, c *choice.Stream, r *Result, opt RunOpt) {
 		pingAnswer := []string{"none", "pong", "exception", "unexpected"}[c.Weighted("ping", 2, 3, 2, 1)]
 		var pingChain []refproto.Exception
 		lastFails := false
-		if _, we, _ := scs[len(scs)-1].expected(); we == "no-onresult" {
+		if _, we, _ := scs[len(scs)-1].expected(); we == "no-onresult" || we == "callback" {
 			lastFails = true
 		}
 		if lastFails {
@@ -334,6 +387,7 @@ func runC03(t *testing.T, c *choice.Stream, r *Result, opt RunOpt) {
 		e.W.ShortReads = c.Pick("shortreads", 0, 0, 100)
 		srv := simnet.NewServer(cf.ServerRev, script)
 		conn := e.W.NewConn(srv)
+		HangJudge(e, r, conn, srv, cf.ServerRev)
 		r.Cell = fmt.Sprintf("rev%d/comp%d/auto%v", cf.Negotiated(), cf.Comp, scs[0].auto)
 		var kinds [][]string
 		for _, rs := range scs {
@@ -353,7 +407,13 @@ func runC03(t *testing.T, c *choice.Stream, r *Result, opt RunOpt) {
 			}
 			clean := true
 			for i, rs := range scs {
-				derr := cl.Do(ctx, rs.query)
+				qctx := ctx
+				if rs.farDeadline > 0 {
+					var cancel context.CancelFunc
+					qctx, cancel = context.WithTimeout(ctx, rs.farDeadline)
+					defer cancel()
+				}
+				derr := cl.Do(qctx, rs.query)
 				if derr != nil && !ch.IsException(derr) {
 					clean = false // the client cancels and closes; what it writes then is C10's subject
 				}
